@@ -186,6 +186,9 @@ func buildModel(s *ast.Schema, computed bool) (*schemaModel, error) {
 			if td != nil && td.Kind == ast.Object {
 				var sub []string
 				for _, sf := range td.Fields {
+					if std := s.Types[sf.Type.Name()]; std != nil && std.Kind == ast.Object {
+						continue // (an object below the object: required / keyed, but not selected)
+					}
 					if !strings.HasPrefix(sf.Name, "__") {
 						sub = append(sub, sf.Name)
 					}
@@ -348,7 +351,7 @@ func scalarJSON(kind, canon string) *sjson.Value {
 	return sjson.S(canon)
 }
 
-// reqParts: own is "<id>/<tier>" - both required sub-fields of the external object.
+// reqParts: own is "<id>/<tier>/<home id>" - the required sub-fields of the external object.
 func reqParts(rep map[string]any) (ext, num, own string) {
 	ext, _ = rep["ext"].(string)
 	if n, ok := rep["num"].(json.Number); ok {
@@ -358,6 +361,12 @@ func reqParts(rep map[string]any) (ext, num, own string) {
 		own, _ = canonLeaf(o["id"])
 		t, _ := o["tier"].(string)
 		own += "/" + t
+		if h, ok := o["home"].(map[string]any); ok {
+			hid, _ := canonLeaf(h["id"])
+			own += "/" + hid
+		} else {
+			own += "/"
+		}
 	}
 	return
 }
@@ -378,7 +387,7 @@ func (m *schemaModel) expectedEntity(rt route, rep map[string]any) *sjson.Value 
 		case tm.Requires && sf.Name == "num":
 			o.Set("num", scalarJSON("Int", num))
 		case tm.Requires && sf.Name == "own":
-			parts := append(strings.SplitN(own, "/", 2), "")
+			parts := append(strings.SplitN(own, "/", 3), "", "")
 			o.Set("own", sjson.O().Set("id", sjson.S(parts[0])).Set("tier", sjson.S(parts[1])))
 		case tm.Requires && sf.Name == "both":
 			o.Set("both", sjson.S("B|"+rt.Vals[0]+"|"+ext+"|"+num))
